@@ -154,6 +154,18 @@ def _seq_note(pair: tuple, like: tuple | None = None, site: ast.AST | None = Non
     return pair
 
 
+def _const_elements(v: Term) -> list[Term] | None:
+    """the elements of a constant tuple / list as terms (a tuple element stays a tuple of constants, so that unpacking it
+    gives constants)."""
+
+    def term(x: t.Any) -> Term:
+        return ("tuple", tuple(term(y) for y in x)) if isinstance(x, tuple) else C(x)
+
+    if v[0] == "c" and isinstance(v[2], (tuple, list)):
+        return [term(x) for x in v[2]]
+    return None
+
+
 def is_gen_coll(t_: t.Any) -> bool:
     return isinstance(t_, tuple) and len(t_) == 2 and t_[0] == "coll" and t_[1] in _GEN_COLLS
 
@@ -508,6 +520,9 @@ _STR_BUILTINS = {"builtins.str"}
 _LISTY_BUILTINS = {"builtins.list", "builtins.tuple", "builtins.sorted", "builtins.iter", "builtins.set", "builtins.frozenset"}
 
 
+_c06_missing = object()
+
+
 class Summaries:
     """cache of function summaries for one repo."""
 
@@ -522,6 +537,7 @@ class Summaries:
         self._memo: dict[str, Summary] = {}
         self._busy: list[str] = []
         self._oid = itertools.count(1)
+        self._scalars: dict[tuple[str, str], t.Any] = {}
 
     def of(self, fi: FuncInfo) -> Summary:
         s = self._memo.get(fi.fq)
@@ -576,6 +592,12 @@ class _Exec:
         self.vararg = a.vararg.arg if a.vararg else None
         self.kwarg = a.kwarg.arg if a.kwarg else None
         self.locals = _locals_of(self.fn) | set(self.params) | ({self.vararg} if self.vararg else set()) | ({self.kwarg} if self.kwarg else set())
+        # a function defined inside another one reads the variables of the enclosing call: to its summary they are further
+        # parameters, bound where the function is called (see inline_target / inline)
+        self.free: list[str] = list(getattr(fi, "free_names", ()))
+        self.locals |= set(self.free)
+        self.closures: dict[str, ast.FunctionDef | None] = {}
+        self._closure_infos: dict[int, FuncInfo] = {}
         self.outcomes: list[Outcome] = []
         self.handlers: list[list[str]] = []  # handler types of the try bodies being executed (innermost last)
         self._seen_out: set[tuple] = set()
@@ -591,7 +613,7 @@ class _Exec:
 
     # -- driver -----------------------------------------------------------
     def run(self) -> Summary:
-        env: dict[str, Term] = {p: ("p", p) for p in self.params}
+        env: dict[str, Term] = {p: ("p", p) for p in self.free + self.params}
         if self.vararg:
             env[self.vararg] = ("p", self.vararg)
         if self.kwarg:
@@ -751,6 +773,8 @@ class _Exec:
             return self.loop(st, s.body, s.orelse, test=s.test)
         if isinstance(s, ast.Try) or s.__class__.__name__ == "TryStar":
             return self.try_(s, st)  # type: ignore[arg-type]
+        if isinstance(s, ast.With) and (as_try := _suppress_as_try(s, lambda d: self.repo.resolve(self.module, d, self.local_imports) if d.split(".", 1)[0] not in st.env else None)) is not None:
+            return self.try_(as_try, st)
         if isinstance(s, (ast.With, ast.AsyncWith)):
             x = st
             for it in s.items:
@@ -767,6 +791,10 @@ class _Exec:
             ts, _ = self.branch(s.test, st)
             return ts
         if isinstance(s, (ast.FunctionDef, ast.AsyncFunctionDef, ast.ClassDef)):
+            if isinstance(s, ast.FunctionDef) and not s.decorator_list and s.name not in self.closures:
+                self.closures[s.name] = s
+            elif self.closures.get(s.name) is not s:
+                self.closures[s.name] = None  # defined twice / decorated: not followed
             return [st.set(s.name, ("v", f"def:{s.name}"))]
         if isinstance(s, (ast.Pass, ast.Import, ast.ImportFrom, ast.Global, ast.Nonlocal, ast.Delete)):
             return [st]
@@ -809,6 +837,9 @@ class _Exec:
         base = len(pre_conds) if outer is None else outer
         heads: list[tuple[State, Term | None]] = [(st, None)]
         if for_node is not None:
+            unrolled = self.unroll(st, for_node)
+            if unrolled is not None:
+                return unrolled
             heads = [(x, itv) for x, itv in self.ev(for_node.iter, st)]
         out: list[State] = []
         for st0, itv in heads:
@@ -822,8 +853,51 @@ class _Exec:
                     starts, exits = self.branch(test, s0)  # type: ignore[arg-type]
                 ends = self.block(body, starts)
                 cur = self.merge([cur] + ends + exits, pre_conds, outer)
+            if test is not None and isinstance(test, ast.Constant) and test.value and not any(e.flow == "break" for e in ends):
+                continue  # `while True` without a reachable break: left only by return / raise, nothing follows the loop
             out.extend(self.block(orelse, [cur]) if orelse else [cur])
         return out
+
+    def finite_sequence(self, e: ast.AST, st: State) -> list[ast.AST | Term] | None:
+        """the elements, in order, of a sequence that is known in full where the loop stands: a tuple / list display
+        (element expressions), a local bound to a tuple of terms, or a constant tuple / list of the module."""
+        if isinstance(e, (ast.Tuple, ast.List)):
+            return None if any(isinstance(x, ast.Starred) for x in e.elts) else list(e.elts)
+        if isinstance(e, ast.Name) and e.id in st.env:
+            v = st.env[e.id]
+            return list(v[1]) if v[0] == "tuple" else _const_elements(v)
+        d = dotted(e)
+        if d is not None and d.split(".", 1)[0] not in st.env and d.split(".", 1)[0] not in self.locals and self.is_module_constant(d):
+            fq = self.repo.resolve(self.module, d, self.local_imports)
+            mn, _, name = fq.rpartition(".")  # type: ignore[union-attr]
+            try:
+                return _const_elements(C(self.sums.folder.name(self.repo.modules[mn], name)))
+            except (Unfoldable, AnalysisError, TypeError):
+                return None
+        return None
+
+    def unroll(self, st: State, node: ast.For) -> list[State] | None:
+        """a `for` over a short sequence known in full is the sequence of its iterations (the body once per element,
+        in order): nothing is abstracted, a value rewritten step by step keeps every step."""
+        elts = self.finite_sequence(node.iter, st)
+        if elts is None or len(elts) > 8 or isinstance(node, ast.AsyncFor):
+            return None
+        live = [st]
+        broken: list[State] = []
+        for el in elts:
+            starts: list[State] = []
+            for s in live:
+                if isinstance(el, ast.AST):
+                    starts.extend(self.assign(node.target, v, s2) for s2, v in self.ev(el, s))
+                else:
+                    starts.append(self.assign(node.target, el, s))
+            live = []
+            for s in self.block(node.body, starts):
+                if s.flow == "break":
+                    broken.append(s.with_flow(None))
+                else:
+                    live.append(s.with_flow(None))
+        return (self.block(node.orelse, live) if node.orelse else live) + broken
 
     def elements(self, itv: Term, st: State) -> list[tuple[State, Term]]:
         """the element(s) a loop over `itv` binds: the generic element - or, for the items of a generator helper, one
@@ -998,6 +1072,18 @@ class _Exec:
 
     def resolve_global(self, d: str) -> Term:
         fq = self.repo.resolve(self.module, d, self.local_imports)
+        if fq and fq.startswith("werkzeug.") and self.is_module_constant(d):
+            # a text / number hoisted to a constant of the module is that text / number (separator, prefix, offset)
+            k = ("scalar", fq)
+            if k not in self.sums._scalars:
+                mn, _, name = fq.rpartition(".")
+                try:
+                    v = self.sums.folder.name(self.repo.modules[mn], name)
+                except (Unfoldable, AnalysisError):
+                    v = _c06_missing
+                self.sums._scalars[k] = v if type(v) in (str, int, bool, type(None)) else _c06_missing
+            if self.sums._scalars[k] is not _c06_missing:
+                return C(self.sums._scalars[k])
         return ("g", fq or f"?.{d}")
 
     def ev_Name(self, e: ast.Name, st: State):  # noqa: N802
@@ -1287,7 +1373,24 @@ class _Exec:
         return None
 
     # -- calls ------------------------------------------------------------
+    def closure_info(self, node: ast.FunctionDef) -> FuncInfo | None:
+        """the function defined inside this one as a helper whose free variables are parameters; None when it rebinds
+        variables of the enclosing call (nonlocal) or is recursive."""
+        if id(node) not in self._closure_infos:
+            own = _locals_of(node) | {a.arg for a in node.args.posonlyargs + node.args.args + node.args.kwonlyargs} | ({node.args.vararg.arg} if node.args.vararg else set()) | ({node.args.kwarg.arg} if node.args.kwarg else set())
+            if any(isinstance(n, (ast.Nonlocal, ast.Global)) for n in ast.walk(node)):
+                return None
+            free = sorted({n.id for n in ast.walk(node) if isinstance(n, ast.Name) and isinstance(n.ctx, ast.Load) and n.id not in own and n.id in self.locals and n.id != node.name})
+            fi = FuncInfo(self.module, node, f"{self.fi.qualname}.<locals>.{node.name}", None)
+            fi.free_names = free  # type: ignore[attr-defined]
+            self._closure_infos[id(node)] = fi
+        return self._closure_infos[id(node)]
+
     def inline_target(self, f: ast.AST, st: State) -> tuple[FuncInfo, Term | None] | None:
+        if isinstance(f, ast.Name) and st.env.get(f.id) == ("v", f"def:{f.id}") and self.closures.get(f.id) is not None:
+            fi = self.closure_info(self.closures[f.id])  # type: ignore[arg-type]
+            if fi is not None and fi.fq not in self.sums._busy:
+                return fi, None
         if isinstance(f, ast.Name) and f.id not in st.env and f.id.startswith("_") and not f.id.startswith("__"):
             fi = self.module.functions.get(f.id)
             if fi is not None and f.id not in self.locals and fi.fq not in self.sums._busy:
@@ -1356,6 +1459,23 @@ class _Exec:
                 else:
                     cond = fn.body if fq == "builtins.filter" else ast.UnaryOp(op=ast.Not(), operand=fn.body)
                     new = ast.GeneratorExp(elt=ast.Name(id=params[0], ctx=ast.Load()), generators=[ast.comprehension(target=target, iter=xs, ifs=[cond], is_async=0)])
+            elif isinstance(fn, (ast.Name, ast.Attribute)) and (tgt := self.inline_target(fn, st)) is not None:
+                # a private helper of the module / class passed by name: map(_h, xs) is (_h(x) for x in xs)
+                hfi, hself = tgt
+                hparams = [a.arg for a in hfi.node.args.posonlyargs + hfi.node.args.args]
+                if hfi.cls is not None and hself is not None:
+                    hparams = hparams[1:]
+                if hfi.node.args.vararg or not hparams:
+                    return None
+                n = len(hparams) if fq == "itertools.starmap" else 1
+                names = [f"_each{i}" for i in range(n)]
+                target = ast.Name(id=names[0], ctx=ast.Store()) if fq != "itertools.starmap" else ast.Tuple(elts=[ast.Name(id=x, ctx=ast.Store()) for x in names], ctx=ast.Store())
+                applied: ast.AST = ast.Call(func=fn, args=[ast.Name(id=x, ctx=ast.Load()) for x in names], keywords=[])
+                if fq in ("builtins.map", "itertools.starmap"):
+                    new = ast.GeneratorExp(elt=applied, generators=[ast.comprehension(target=target, iter=xs, ifs=[], is_async=0)])
+                else:
+                    cond = applied if fq == "builtins.filter" else ast.UnaryOp(op=ast.Not(), operand=applied)
+                    new = ast.GeneratorExp(elt=ast.Name(id=names[0], ctx=ast.Load()), generators=[ast.comprehension(target=target, iter=xs, ifs=[cond], is_async=0)])
         if new is None:
             return None
         ast.copy_location(new, e)
@@ -1480,6 +1600,9 @@ class _Exec:
         for p in params:
             if p not in m:
                 m[p] = summ.defaults.get(p, ("v", f"missing-arg:{p}"))
+        for n in getattr(fi, "free_names", ()):
+            if n not in m:
+                m[n] = st.env.get(n, ("v", f"unbound:{n}"))
         res: list[tuple[State, Term]] = []
         for o in summ.outcomes:
             s = st
@@ -1503,6 +1626,24 @@ class _Exec:
             res.append((s, v))
         self.tick(len(res))
         return res
+
+
+def _suppress_as_try(s: ast.With, resolve: t.Callable[[str], str | None]) -> ast.Try | None:
+    """``with contextlib.suppress(E1, E2): body`` is ``try: body / except (E1, E2): pass`` (the only context manager read:
+    it has no other effect).  None for every other ``with``."""
+    if len(s.items) != 1 or s.items[0].optional_vars is not None:
+        return None
+    call = s.items[0].context_expr
+    if not isinstance(call, ast.Call) or call.keywords or any(isinstance(a, ast.Starred) for a in call.args):
+        return None
+    d = dotted(call.func)
+    if d is None or resolve(d) != "contextlib.suppress":
+        return None
+    if not call.args:
+        return ast.copy_location(ast.Try(body=s.body, handlers=[], orelse=[], finalbody=[ast.copy_location(ast.Pass(), s)]), s)
+    typ: ast.expr = call.args[0] if len(call.args) == 1 else ast.copy_location(ast.Tuple(elts=list(call.args), ctx=ast.Load()), call)
+    handler = ast.copy_location(ast.ExceptHandler(type=typ, name=None, body=[ast.copy_location(ast.Pass(), s)]), s)
+    return ast.copy_location(ast.Try(body=s.body, handlers=[handler], orelse=[], finalbody=[]), s)
 
 
 def _as_load(tg: ast.AST) -> ast.AST:
@@ -1766,6 +1907,10 @@ class Conc:
             raise Unknown("order of a collection filled at several places")
         if len(its) != 1:
             raise Unknown("collection over several iterations")
+        if any(not any(x == its[0] for x in walk((cs, it_))) for cs, it_ in items):
+            # an item that does not depend on the element (a constant stored before / after / between the per-element
+            # stores): how often and where it occurs in the sequence is not part of the abstraction
+            raise Unknown("collection filled both per element of a loop and independently of it")
         src = self.val(its[0][1], env)
         if isinstance(src, dict):
             src = list(src)
@@ -2328,6 +2473,7 @@ class Machine:
         self._loads: dict[int, ast.AST] = {}
         self._dispatch: dict[type, t.Any] = {}
         self._class_attrs: dict[tuple[str, str], t.Any] = {}
+        self._with_as_try: dict[int, ast.Try | None] = {}
 
     # -- entry points -----------------------------------------------------
     def run(self, f: t.Any, args: t.Sequence[t.Any] = (), kwargs: dict[str, t.Any] | None = None) -> t.Any:
@@ -2949,6 +3095,13 @@ class Machine:
                 self.block(s.orelse, fr)
         elif isinstance(s, ast.Try):
             self.try_(s, fr)
+        elif isinstance(s, ast.With):
+            as_try = self._with_as_try.get(id(s), _MISSING_EXC)
+            if as_try is _MISSING_EXC:
+                as_try = self._with_as_try[id(s)] = _suppress_as_try(s, lambda d: self.repo.resolve(fr.module, d, fr.limports) if fr.find(d.split(".", 1)[0]) is None else None)
+            if as_try is None:
+                raise NotModelled("statement With (other than contextlib.suppress)")
+            self.try_(as_try, fr)  # type: ignore[arg-type]
         elif isinstance(s, ast.Break):
             raise _Brk()
         elif isinstance(s, ast.Continue):
